@@ -5,7 +5,11 @@ open Wire C32
 /-
 Trace validation driver: the harness logs the visible events of the real Push (one per line) and the
 specification acceptor must accept each of them from the state reached so far.
-  cfg <maxSeq>                 -> ok        (and resets the acceptor)
+  cfg <maxSeq> <strict01>      -> ok        (and resets the acceptor; strict: every acknowledgement is
+                                             followed at once by its record — histories without injected
+                                             store failures / crashes)
+  skip <a> <b>                 -> ok | rejected   (filter subscriptions: range scanned, no matching data)
+  stalled                      -> ok | rejected   (first block of the range exceeds the size limit)
   post <a> <b> <ok01>          -> ok | rejected
   persisted <v>                -> ok | rejected
   deactivated                  -> ok | rejected
@@ -16,6 +20,7 @@ A rejected event leaves the state unchanged.
 
 structure St where
   c : Cfg := {}
+  strict : Bool := true
   s : Spec := {}
 
 def ev? (ws : List String) : Option Ev :=
@@ -24,17 +29,19 @@ def ev? (ws : List String) : Option Ev :=
   | ["persisted", v] => do pure (.persisted (← parseInt? v))
   | ["deactivated"] => some .deactivated
   | ["started"] => some .started
+  | ["stalled"] => some .stalled
+  | ["skip", a, b] => do pure (.skip (← parseInt? a) (← parseInt? b))
   | _ => none
 
 def stepLine (st : St) (line : String) : St × String :=
   match words line with
-  | ["cfg", m] => match m.toNat? with
-      | some m => ({ c := { maxSeq := m }, s := {} }, "ok")
+  | ["cfg", m, k] => match m.toNat? with
+      | some m => ({ c := { maxSeq := m }, strict := k == "1", s := {} }, "ok")
       | none => (st, "bad-op")
   | ["acked?"] => (st, toString (eff st.s))
   | ws => match ev? ws with
     | none => (st, "bad-op")
-    | some e => match accept st.c st.s e with
+    | some e => match accept st.c st.strict st.s e with
       | none => (st, "rejected")
       | some s' => ({ st with s := s' }, "ok")
 
